@@ -45,6 +45,20 @@ Round 3 dimensions:
     re-grant it as WINDOW_ADJUST until the application tasks are done; sendalls of 1..8 windows (window
     {1,5,100,5000,40000}), histories/peer prefixes weighted towards read-side half-closes.  With the oracle
     clause above: several flow-control round trips per sendall, incl. on a half-closed channel.
+
+Round 4 dimensions:
+  * peer-advertised maximum packet size over the whole uint32 range: the usual 4096 / 32768 plus 0, 1, 32, 63, 64, 65, 4095 (RFC 4254
+    sets no minimum; paramiko never advertises less than 4096 itself, a peer may) and 2^32-1 - in every family.
+  * "herd" family: 2-3 senders (sendall / sendall_stderr of 1..5000 bytes) parked on an exhausted window (0, 1, 5) at the same
+    moment - the peer lets virtual time pass first - then ONE WINDOW_ADJUST (1 .. 2^20: from less than the first waiter wants to
+    enough for everybody), at most one further peer event.  Judged by the clauses above: a call parked for good although the peer's
+    books show window left = blocked forever.
+  * "no progress" in the termination clause = send() returned a count that is not a positive number (0, or a negative one) for a
+    non-empty argument.
+  * raised-without-cause: the statement names the reasons for raising (closed, shut down for writing, timed out; a lost transport
+    closes the channel).  A sendall that raises socket.error / SSHException although - even after the call - the channel is not
+    closed, EOF was not sent, the transport is up and it was not a timeout under a set channel timeout neither delivered nor had a
+    reason (the three conditions are one-way, so judging them after the call can only excuse more).
 """
 import socket
 
@@ -72,12 +86,22 @@ RULE = (
     "shutdown_read) x [peer: <=2 events then a SERVING receiver that re-grants every byte that reached the wire until the senders are done || 1-2 senders with "
     "sendalls of 1..8 windows]; a parked call counts as legitimately waiting only if the window granted by the peer (initial + delivered WINDOW_ADJUSTs - bytes "
     "handed over) is used up. Evidence classes: arg-<kind>[-in-several-chunks], non-ascii-text-in-several-chunks, granting-peer[-several-round-trips], "
-    "sendall-after-read-side-half-close[-spanning-several-grants], flow-family"
+    "sendall-after-read-side-half-close[-spanning-several-grants], flow-family. "
+    "Round 4: peer max packet in {4096, 32768, 0, 1, 32, 63, 64, 65, 4095, 2^32-1} in every family (classes peer-max-packet:below-64|64|65..4095|usual|2^32-1); "
+    "'herd' family: window {0,1,5} x timeout {None,0.5} x 2-3 senders (sendall/sendall_stderr of 1..5000 bytes) all parked on the window || peer: sleep, ONE "
+    "WINDOW_ADJUST of 1..2^20, <=1 further event (class grant-arrives-with-several-senders-parked = non-trivial); no progress = send() returned a non-positive "
+    "count; oracle adds raised-without-cause: raised although afterwards the channel is neither closed nor EOF-sent, the transport is up and it was no timeout"
 )
 
 SIZES = [0, 1, 5, 100, 4032, 5000, 40000]
 WINDOWS = [0, 1, 5, 100, 5000, 2 ** 21]
 ADJUSTS = [0, 1, 5, 100, 5000, 2 ** 20]
+
+# maximum packet size the PEER advertised for the channel: any uint32 (RFC 4254 5.1 sets no minimum; paramiko itself never
+# advertises less than 4096, other peers may) - the usual values, the two ends of the range and the neighbourhood of the 64
+# bytes of headroom the sender subtracts
+MAXPKTS = [4096, 4096, 32768, 32768, 32768, 32768, 32768, 0, 1, 32, 63, 64, 65, 4095, 2 ** 32 - 1]
+maxpkt_st = st.sampled_from(MAXPKTS)
 
 size_st = st.one_of(st.integers(0, 300), st.sampled_from(SIZES), st.sampled_from(SIZES), st.just(300 * 1024))
 # argument kinds of sendall/sendall_stderr: what the API is observed to accept (bytes-like objects, and text - the repo's own
@@ -121,7 +145,7 @@ _drip = st.tuples(peer_sleep, st.tuples(st.just("adjust"), st.sampled_from([0, 0
 timed_case_st = st.fixed_dictionaries(
     {
         "win": st.sampled_from([0, 0, 1, 5]),
-        "maxpkt": st.sampled_from([4096, 32768]),
+        "maxpkt": maxpkt_st,
         "timeout": st.sampled_from([0.5, 0.5, 1.0]),
         "history": st.lists(st.tuples(st.just("adjust"), st.sampled_from([0, 1, 5])), max_size=1),
         "peer": st.tuples(st.lists(_drip, min_size=1, max_size=5), st.lists(st.one_of(peer_op, peer_sleep), max_size=2)).map(lambda t: [op for pair in t[0] for op in pair] + list(t[1])),
@@ -131,10 +155,29 @@ timed_case_st = st.fixed_dictionaries(
     }
 )
 
+# "herd" family: SEVERAL senders parked on the exhausted window at the same moment, then ONE grant.  The peer lets (virtual) time
+# pass first, so that every sender has used up the window and is waiting; its single WINDOW_ADJUST ranges from "less than the first
+# waiter wants" to "covers everybody"; at most one further peer event.  Every parked call has to end: by delivering (the grant
+# reaches it), by waiting on legitimately (the others used the grant up), or by raising.
+_herd_size = st.sampled_from([1, 5, 10, 100, 4032, 5000])
+_herd_sender = st.tuples(st.tuples(st.sampled_from(["sendall", "sendall", "sendall_stderr"]), _herd_size, kind_st), st.lists(app_op, max_size=1)).map(lambda t: [t[0]] + list(t[1]))
+herd_case_st = st.fixed_dictionaries(
+    {
+        "win": st.sampled_from([0, 0, 1, 5]),
+        "maxpkt": maxpkt_st,
+        "timeout": st.sampled_from([None, None, None, 0.5]),
+        "history": st.lists(st.tuples(st.just("adjust"), st.sampled_from([0, 1, 5])), max_size=1),
+        "peer": st.tuples(peer_sleep, st.tuples(st.just("adjust"), st.sampled_from([1, 5, 20, 100, 5000, 2 ** 20, 2 ** 20])), st.lists(st.one_of(peer_op, peer_sleep), max_size=1)).map(lambda t: [t[0], t[1]] + list(t[2])),
+        "apps": st.lists(_herd_sender, min_size=2, max_size=3),
+        "sched": S.schedule_strategy(max_pre=3, max_gap=60, max_forced=6),
+        "trace": st.booleans(),
+    }
+)
+
 case_st = st.fixed_dictionaries(
     {
         "win": st.sampled_from(WINDOWS),
-        "maxpkt": st.sampled_from([4096, 32768]),
+        "maxpkt": maxpkt_st,
         "timeout": st.sampled_from([None, None, 0.0, 0.5]),
         "history": st.lists(st.one_of(peer_op, local_event), max_size=3),
         "peer": st.lists(st.one_of(peer_op, peer_op.map(lambda v: v), peer_op.map(lambda v: (v)), peer_sleep), max_size=3),
@@ -164,7 +207,7 @@ def _flow_case(win):
     return st.fixed_dictionaries(
         {
             "win": st.just(win),
-            "maxpkt": st.sampled_from([4096, 32768]),
+            "maxpkt": maxpkt_st,
             "timeout": st.sampled_from([None, None, None, 0.0, 0.5]),
             "history": st.lists(hist_op, max_size=2),
             "peer": st.lists(st.one_of(half_close, peer_op, peer_sleep), max_size=2).map(lambda l: list(l) + [("serve",)]),
@@ -225,6 +268,7 @@ class Bench:
         self.calls = []  # dicts per sendall call
         self.events = []  # (log index, name)
         self.zeros = {}
+        self.lastret = {}
         self.rewaits = 0  # send calls that went back to waiting after a wake-up that left them without window
         # the peer's side of the flow control (RFC 4254 5.2), independent of the channel's own bookkeeping: window the peer has
         # granted so far (initial window + every WINDOW_ADJUST that was dispatched to the channel)
@@ -235,6 +279,8 @@ class Bench:
         self.napps = len(case["apps"])
         self.apps_done = 0
         self.serve_grants = 0
+        self.herd_grants = 0  # WINDOW_ADJUSTs (> 0 bytes) that arrived while two or more send calls were parked on the window
+        self.parked = set()  # tasks inside a wait on the window condition right now
         self._wrap_window_wait()
         self._wrap_send("send")
         self._wrap_send("send_stderr")
@@ -260,7 +306,11 @@ class Bench:
                 if spent[me] >= t:
                     self.over.append((me, t, spent[me], self.nwaits[me]))
             t0 = s.now
-            r = real_wait(timeout)
+            self.parked.add(me)
+            try:
+                r = real_wait(timeout)
+            finally:
+                self.parked.discard(me)
             if me in spent:
                 spent[me] += s.now - t0
             return r
@@ -283,10 +333,12 @@ class Bench:
                 if self.nwaits.get(me, 0) >= 2:
                     self.rewaits += 1
                 self.spent.pop(me, None)
-            if n == 0 and len(data) > 0:
+            if len(data) > 0 and not (isinstance(n, int) and n > 0):
+                # no progress: 0 bytes taken (or a count that is not a positive number at all)
                 z = zeros[me] = zeros.get(me, 0) + 1
+                self.lastret[me] = n
                 if z == SPIN_FAIR:
-                    s.let_others_run("send returned 0 %d times" % SPIN_FAIR)
+                    s.let_others_run("send returned %r %d times" % (n, SPIN_FAIR))
                 if z >= SPIN_LIMIT:
                     raise SpinAbort()
             else:
@@ -311,7 +363,7 @@ class Bench:
                 r = getattr(chan, k)(arg)
                 rec["out"] = ("returned", r)
             except SpinAbort:
-                rec["out"] = ("spin",)
+                rec["out"] = ("spin", self.lastret.get(tname, 0))
                 rec["state"] = self.state()
             except S.HarnessAbort:
                 rec["state"] = self.state()
@@ -320,10 +372,13 @@ class Bench:
                 if isinstance(e, HarnessError):
                     raise
                 rec["out"] = ("raised", e)
+                rec["state"] = self.state()  # closed / eof_sent / transport loss are one-way: what holds now held at the raise or since
             finally:
                 rec["h1"] = len(self.handed)
                 rec["end"] = len(s.log)
         elif k == "adjust":
+            if op[1] > 0 and len(self.parked) >= 2:
+                self.herd_grants += 1
             if ft.deliver(CB.MSG_CHANNEL_WINDOW_ADJUST, 1, op[1]):
                 self.granted += op[1]
         elif k == "serve":
@@ -454,7 +509,8 @@ def judge(bench, res, case):
             continue
         if out[0] == "spin":
             stt = rec["state"]
-            viol.append(("loops-forever", "send-returns-0:" + _spin_state(stt), "%s: send() returned 0 %d times in a row, no other task can act; state=%r" % (where, SPIN_LIMIT, stt)))
+            ret = out[1] if len(out) > 1 else 0
+            viol.append(("loops-forever", "send-returns-%s:" % ("0" if ret == 0 else "non-positive") + _spin_state(stt), "%s: send() returned %r %d times in a row, no other task can act; state=%r" % (where, ret, SPIN_LIMIT, stt)))
             classes.add("spin")
         elif out[0] == "returned":
             classes.add("returned")
@@ -477,6 +533,16 @@ def judge(bench, res, case):
                 viol.append(("unexpected-exception", "%s:%s" % (rec["op"], type(e).__name__), "%s raised %r" % (where, e)))
             if not data.startswith(got):
                 viol.append(("raised-after-wrong-bytes", rec["op"], "%s handed over bytes that are not a prefix of the argument" % where))
+            # the statement names the reasons for raising: closed, shut down for writing, timed out (a lost transport closes the
+            # channel).  A call that raises although, even afterwards, none of them holds did neither deliver nor have a reason.
+            stt = rec.get("state")
+            if stt is not None and isinstance(e, (socket.error, SSHException)):
+                timed = isinstance(e, socket.timeout) and case.get("timeout") is not None
+                if not (stt["closed"] or stt["eof_sent"] or not stt["active"] or timed):
+                    viol.append(("raised-without-cause", "%s:%s" % (rec["op"], type(e).__name__),
+                                 "%s raised %r although the channel is open for writing, the transport is up and %s; state=%r" % (where, e, "no timeout is set" if case.get("timeout") is None else "it was not a timeout", stt)))
+                else:
+                    classes.add("raised-with-cause:%s" % ("timeout" if timed else "closed-or-shut-down-or-lost"))
     if res.outcome == "deadlock":
         classes.add("deadlock")
         if not any(r["out"] is None for r in bench.calls):
@@ -493,6 +559,9 @@ def judge(bench, res, case):
         classes.add("granting-peer")
         if bench.serve_grants >= 2:
             classes.add("granting-peer-several-round-trips")
+    if bench.herd_grants:
+        nontrivial = True
+        classes.add("grant-arrives-with-several-senders-parked")
     if bench.rewaits:
         classes.add("timed-or-untimed-sender-woken-without-window-and-waiting-again")
     if case.get("timeout") and bench.rewaits:
@@ -527,6 +596,8 @@ def execute(ctx, case, extra_classes=()):
     viol, classes, nontrivial = judge(b, res, case)
     if b.rewaits and case.get("timeout"):
         nontrivial = True  # a timed sender was woken without getting window and had to decide how long to go on waiting
+    mp = case.get("maxpkt", 32768)
+    classes.add("peer-max-packet:%s" % ("below-64" if mp < 64 else "64" if mp == 64 else "65..4095" if mp < 4096 else "2^32-1" if mp == 2 ** 32 - 1 else "usual"))
     ctx.case(case, nontrivial, sorted(classes) + list(extra_classes))
     seen = set()
     for clause, bucket, detail in viol:
@@ -538,9 +609,10 @@ def execute(ctx, case, extra_classes=()):
 def run(ctx):
     ctx.set_budget(60, 840)
     ctx.assume("'loops forever' = send() returns 0 for 120 consecutive iterations, the last 100 of them after every other task has finished or is parked for good (state frozen)")
-    ctx.explore(case_st, lambda c: execute(ctx, c), ctx.scale(2800, 26000))
+    ctx.explore(case_st, lambda c: execute(ctx, c), ctx.scale(2500, 26000))
     ctx.explore(timed_case_st, lambda c: execute(ctx, c, ("timed-family",)), ctx.scale(700, 7000), seed_offset=3)
     ctx.explore(flow_case_st, lambda c: execute(ctx, c, ("flow-family",)), ctx.scale(500, 6000), seed_offset=5)
+    ctx.explore(herd_case_st, lambda c: execute(ctx, c, ("herd-family",)), ctx.scale(300, 4000), seed_offset=7)
 
 
 def replay(ctx, case):
